@@ -216,6 +216,7 @@ fn build(args: &ArgMatches) -> Result<(), Box<dyn Error>> {
     }
 
     let paths = fs::read_dir(input_dir).unwrap();
+    let mut failed = 0;
     for path in paths {
         let tmp_path = path.unwrap().path();
         if tmp_path.is_file() {
@@ -233,12 +234,19 @@ fn build(args: &ArgMatches) -> Result<(), Box<dyn Error>> {
                     Ok(_) => {}
                     Err(e) => {
                         println!("{}", e);
+                        failed += 1;
                     }
                 }
             }
         }
     }
 
+    if failed > 0 {
+        return Err(Box::from(format!(
+            "[Error]: {} file(s) could not be converted",
+            failed
+        )));
+    }
     Ok(())
 }
 
